@@ -1527,14 +1527,23 @@ func (s *compoundState) opOpen(ctx context.Context, args *nfsv4.Open4args) nfsv4
 	transaction, lastResponse, st := oos.startTransaction(p, args.Seqid, &ll, unconfirmedOpenOwnerPolicyReinitialize)
 	if st != nfsv4.NFS4_OK {
 		if r, ok := lastResponse.(nfsv4.Open4res); ok {
-			// Last call was also an OPEN. Return cached response.
+			// Last call was also an OPEN. Return cached
+			// response. A successful OPEN makes the opened
+			// file the current file handle. Do the same
+			// for the replay, so that the operations that
+			// follow it (e.g., GETFH) yield the same
+			// results as they did the first time.
+			if r.GetStatus() == nfsv4.NFS4_OK {
+				s.currentFileHandle = oos.lastResponse.openedFileHandle
+			}
 			return r
 		}
 		return &nfsv4.Open4res_default{Status: st}
 	}
 	response := s.txOpen(ctx, args, oos, &ll)
 	transaction.complete(&openOwnerLastResponse{
-		response: response,
+		response:         response,
+		openedFileHandle: s.currentFileHandle,
 	})
 	return response
 }
@@ -2897,6 +2906,10 @@ type responseMessage interface{ GetStatus() nfsv4.Nfsstat4 }
 type openOwnerLastResponse struct {
 	response   responseMessage
 	closedFile *nfs40OpenOwnerFileState
+
+	// For OPEN: the current file handle at the end of the
+	// operation, which needs to be restored when replaying it.
+	openedFileHandle nfs40FileHandle
 }
 
 // nfs40OpenOwnerFileState stores information on a file that is currently
